@@ -95,9 +95,15 @@ def timing(tier):
 
 def eval_nopanic(triples, tier, rng):
     import families as F
-    fails = []; dist = {'panics': 0, 'parse_ok': 0, 'parse_err': 0, 'ops': 0, 'diag': 0}
-    nontrivial = 0; certs = []
+    fails = []; dist = {'panics': 0, 'parse_ok': 0, 'parse_err': 0, 'ops': 0, 'diag': 0, 'value_only_disagreements': 0}
+    nontrivial = 0; certs = []; excused = set()
     for c, o, v in triples:
+        if v.startswith('DIFF') and 'panic' not in o and 'panic' not in v and 'outoffuel' not in v:
+            # C06 is about returning normally: a disagreement between two normal results of the same class
+            # (both Ok / both Err / both a plain value) is another property's business
+            mo = v.split('\t', 1)[1] if '\t' in v else ''
+            if o[:4] == mo[:4] or not (o.startswith('(ok') or o.startswith('(err') or mo.startswith('(ok') or mo.startswith('(err')):
+                excused.add(c); dist['value_only_disagreements'] += 1
         head = c[1:c.index(' ')] if ' ' in c else c
         if head == 'rparse' and len(c) < 60 and len(certs) < 3000 and rng.random() < 0.2:
             pc = parse(c); s = str(pc[1])
@@ -126,4 +132,4 @@ def eval_nopanic(triples, tier, rng):
         if t['worst_ratio_per_decade'] > 40:
             bad = [k for k, r in t['probes'].items() if max(r['ratio_per_decade']) > 40]
             fails.append({'what': 'parse time grows super-linearly on %s: %s' % (bad, {k: t['probes'][k] for k in bad}), 'case': dump(['rtime', str(t['sizes'][-1]), bad[0].split('/')[1]]), 'input': bad, 'kind': 'timing'})
-    return {'failures': fails[:40], 'nontrivial': nontrivial, 'distribution': dist, 'certs': certs}
+    return {'failures': fails[:40], 'nontrivial': nontrivial, 'distribution': dist, 'certs': certs, 'excused': excused}
